@@ -61,12 +61,26 @@ P['ct_ifafterstate'] = 'fn cnt(x:float){\n  self + x\n}\nfn dsp(a:float)->float{
 P['ct_matchf'] = 'fn pick(n){\n    match n {\n        0 => 100\n        1 => 200\n        _ => 300\n    }\n}\nfn dsp(a:float)->float{\n  pick(a)\n}\n'
 P['ct_matchneg'] = 'fn pick(n){\n    match n {\n        0 => 20\n        1 => 10\n        2 => 30\n        _ => 40\n    }\n}\nfn dsp(a:(float,float))->float{\n  pick(a.0) + pick(a.1 * 0.5)\n}\n'
 P['ct_matchstate'] = 'fn cnt(x:float){\n  self + x\n}\nfn dsp(a:float)->float{\n  let c = cnt(1.0)\n  match a {\n    0 => c\n    1 => 0.0 - c\n    _ => 0.5\n  }\n}\n'
+# arrays of multi-word elements x where the array lives x where the index comes from (element width matters for index clamping)
+ELEMS = {'t2': ('[(1.0,10.0),(2.0,20.0)]', 'let (x,y) = %s\n  x + y'),
+         't3': ('[(1.0,10.0,100.0),(2.0,20.0,200.0),(3.0,30.0,300.0)]', 'let (x,y,z) = %s\n  x + y + z')}
+for en, (lit, use) in ELEMS.items():
+    P['ct_arr%s_in' % en] = 'fn dsp(a:float)->float{\n  let arr = %s\n  %s\n}\n' % (lit, use % 'arr[a]')
+    P['ct_arr%s_glob' % en] = 'let arr = %s\nfn dsp(a:float)->float{\n  %s\n}\n' % (lit, use % 'arr[a]')
+    P['ct_arr%s_cnt' % en] = 'let arr = %s\nfn counter(){\n  self + 1\n}\nfn dsp(a:float)->float{\n  %s\n}\n' % (lit, use % 'arr[counter() - 1 + a]')
+    P['ct_arr%s_oor' % en] = 'fn dsp(a:float)->float{\n  let arr = %s\n  %s\n}\n' % (lit, (use % 'arr[5]') + ' + a')
 # ---- G_cls --------------------------------------------------------------------------------------------------
 P['cl_hof'] = 'fn apply(f:(float)->float, x:float){\n  f(x)\n}\nfn dsp(a:float)->float{\n  apply(|x| x * 3.0, a)\n}\n'
 P['cl_capture'] = 'fn dsp(a:(float,float))->float{\n  let k = a.0\n  let f = |x| x * k + 1.0\n  f(a.1)\n}\n'
 P['cl_make'] = 'fn mk(g:float){\n  |x| x * g\n}\nfn dsp(a:float)->float{\n  let f = mk(0.5)\n  f(a)\n}\n'
 P['cl_state'] = 'fn mkcnt(inc:float){\n  | | { self + inc }\n}\nlet c = mkcnt(0.25)\nfn dsp(a:float)->float{\n  c() + a\n}\n'
 P['cl_assign'] = 'fn dsp(a:float)->float{\n  let x = a\n  let f = | | { x = x + 1.0\n  x }\n  f() + f()\n}\n'
+# closure creation site (dsp / value-returning fn / unit-returning fn) x use (applied inline / let-bound / passed on)
+P['cl_inline'] = 'fn dsp(a:float)->float{\n  (|y| {y * 2.0 + a})(1.0)\n}\n'
+P['cl_valfn'] = 'let acc = 0.0\nfn bump(k:float){\n  acc = (|y| {y * k + acc})(1.0)\n  acc\n}\nfn dsp(a:float)->float{\n  bump(a)\n}\n'
+P['cl_unitfn'] = 'let acc = 0.0\nfn bump(k:float){\n  acc = (|y| {y * k + acc})(1.0)\n}\nfn dsp(a:float)->float{\n  bump(a)\n  acc\n}\n'
+P['cl_unitlet'] = 'let acc = 0.0\nfn bump(k:float){\n  let f = |y| {y * k}\n  acc = f(acc + 1.0)\n}\nfn dsp(a:float)->float{\n  bump(a)\n  acc\n}\n'
+P['cl_unithof'] = 'let acc = 0.0\nfn apply(f:(float)->float, x:float){\n  f(x)\n}\nfn bump(k:float){\n  acc = apply(|y| {y + k}, acc)\n}\nfn dsp(a:float)->float{\n  bump(a)\n  acc\n}\n'
 for k, v in P.items():
     with open(os.path.join(D, k + '.mmm'), 'w') as f:
         f.write(v)
